@@ -46,7 +46,7 @@ def recipe(c: Check):
         # the theorems say the current model never shows these; seeing one means model and proofs have drifted apart
         for name in ("NCRASH", "NLOST", "NORPHAN"):
             if ctr.get(name, 0) != 0:
-                c.failures.append(dict(key="C13:monitor:%s" % name.lower(), driver="groups",
+                c.failures.append(dict(key="monitor:C13:%s" % name.lower(), driver="groups",
                                        what="the model itself shows a crash / orphan endpoint / lost connection on an executed schedule",
                                        case=str(ctr)))
         d = st.get("distribution", {})
